@@ -215,13 +215,16 @@ ares_status_t ares_send_nolock(ares_channel_t *channel, ares_server_t *server,
     /* LCOV_EXCL_STOP */
   }
 
-  /* Perform the first query action. */
-
-  status = ares_send_query(server, query, &now);
-  if (status == ARES_SUCCESS && qid) {
+  /* Hand out the query id before the first query action: sending can end
+   * this very query (the send fails, or it is swept up in the failure of
+   * another one) and run its callback, after which the memory qid points to
+   * (a member of the caller's own request) may be gone. */
+  if (qid) {
     *qid = id;
   }
-  return status;
+
+  /* Perform the first query action. */
+  return ares_send_query(server, query, &now);
 }
 
 ares_status_t ares_send_dnsrec(ares_channel_t          *channel,
